@@ -2,6 +2,33 @@
 from lib import vlib
 
 
+def apalache_inductive(ctx):
+    """Apalache: the safety invariants of the device-Tty model are inductive (any number of Start/Stop cycles and
+    signals; pending input up to two bytes in the arbitrary pre-state).  Extra evidence only: None if Apalache cannot run."""
+    import os
+    import shutil
+    import subprocess
+    if not shutil.which("apalache-mc"):
+        return None
+    d = os.path.join(ctx.work, "apalache")
+    os.makedirs(d, exist_ok=True)
+    shutil.copy(os.path.join(vlib.VERIF, "spec", "apalache", "DevTtyInd.tla"), d)
+    ok = True
+    for init, length in (("Init", "0"), ("IndInit", "1")):
+        try:
+            r = subprocess.run(["timeout", "600", "apalache-mc", "check", "--init=" + init, "--inv=IndInv", "--length=" + length,
+                                "--out-dir=" + os.path.join(d, "out"), "DevTtyInd.tla"], cwd=d, stdout=subprocess.PIPE,
+                               stderr=subprocess.STDOUT, text=True)
+        except Exception:
+            return None
+        if "The outcome is: NoError" not in r.stdout:
+            if "The outcome is: Error" in r.stdout:
+                ok = False
+            else:
+                return None
+    return ok
+
+
 def run(ctx):
     q = ctx.tier == "quick"
     ctx.build_harness()
@@ -35,6 +62,8 @@ def run(ctx):
     extras = [d for d in rd["devs"] if d["tag"].startswith("EXTRA.")]
     for d in extras[:10]:
         vlib.log("  note (not a verdict): %s" % vlib.sig(d))
+    if not q:
+        ctx.cov["apalache_devtty_invariants_inductive"] = apalache_inductive(ctx)
     ctx.cov.update(pty_histories=sp["histories"], devtty_histories=sd["histories"], devtty_events=rd["lines"],
                    extra_monitor_reports=len(extras))
     ctx.cov.update(traces_validated_against_impl=s["histories"], evaluations=s["ops"], distinct_nontrivial=s["distinct"],
